@@ -276,9 +276,16 @@ class Parser:
         compiled_hints = None
         if hints_file.exists():
             hints_file_compiled = hints_file.with_suffix(".pgec")
+            # Hints are keyed by LR state, so a change in any of the grammar
+            # files (root or imported) invalidates them.
+            grammar_files = [grammar_file, *self.grammar.imported_files]
             if (
                 not hints_file_compiled.exists()
-                or grammar_file.stat().st_mtime > hints_file_compiled.stat().st_mtime
+                or any(
+                    Path(g_file).stat().st_mtime
+                    > hints_file_compiled.stat().st_mtime
+                    for g_file in grammar_files
+                )
                 or hints_file.stat().st_mtime > hints_file_compiled.stat().st_mtime
             ):
                 # Compilation is needed
